@@ -7,6 +7,10 @@ import Proofs.Gates
 import Proofs.WF
 import Proofs.FrozenHistory
 import Proofs.UnifiedFrozen
+import Proofs.PausedHistory
+import Proofs.UnifiedPaused
+import Proofs.UnifiedPausedNFT
+import Proofs.UnifiedPausedMulti
 namespace C04
 open Esdt
 
@@ -286,7 +290,79 @@ example : UFzStepsOK fzEnv fzAlice fzTok fzSteps fzW0 :=
    rfl, rfl,
    ⟨rfl, fun h => (by rcases h with h | h <;> cases h), fun h => (by rcases h with h | h | h <;> cases h)⟩, trivial⟩
 
--- PARTIAL (stated): the history-level clause for the NFT / multi TRANSFER functions and for pause ("for all histories interleaving the
+/-! ### the pause half over histories (Proofs/PausedHistory.lean, Proofs/UnifiedPaused.lean) -/
+
+/-- `PausedAt` is the `Paused` of this file -/
+theorem pausedAt_iff (A : Accts) (tok : Bytes) : PausedAt A tok ↔ Paused A tok := Iff.rfl
+
+/-- FULL (one supply operation while the token is paused): no mint / local burn / burn / NFT create / add quantity /
+    NFT burn — by anybody, any arguments — changes ANY entry of the paused token (the fungible entry and the entry of
+    every nonce, byte for byte: value, flags, metadata) of any account other than the ESDT system contract's own, and the
+    token stays paused. No assumption on the state at all. -/
+theorem paused_entries_unchanged (op : SupplyOp) (hop : op ≠ .wipe ∧ op ≠ .freeze ∧ op ≠ .unfreeze) (env : Env) (c : Call)
+    (A : Accts) (out : VMOutput) (ctx' : Ctx) (h : op.run env c { accts := A } = .ok (out, ctx')) (tok : Bytes)
+    (hp : Paused A tok) (hrae : c.rae = false) (hsys : c.caller ≠ systemAccountAddress) (hna : NoAliasCall tok c) :
+    (∀ a n, a ≠ esdtSCAddress →
+      ctx'.accts.read a (nftKey (esdtKeyPrefix ++ tok) n) = A.read a (nftKey (esdtKeyPrefix ++ tok) n)) ∧
+    Paused ctx'.accts tok :=
+  paused_step op hop env c A out ctx' h tok hp hrae hsys hna
+
+/-- FULL (operation sequences): along ANY sequence of supply operations (failed ones rolled back) without the system
+    contract's wipe / freeze / unfreeze and without return-after-error calls, every entry of a token that is paused at
+    the start is byte for byte the same at the end, and the token is still paused -/
+theorem paused_entries_history (tok : Bytes) (steps : List SStep) (A : Accts) (hps : ∀ s ∈ steps, PStepOK tok s)
+    (hp : Paused A tok) :
+    (∀ a n, a ≠ esdtSCAddress →
+      (srun steps A).1.read a (nftKey (esdtKeyPrefix ++ tok) n) = A.read a (nftKey (esdtKeyPrefix ++ tok) n)) ∧
+    Paused (srun steps A).1 tok :=
+  paused_history_run tok steps A hps hp
+
+/-- FULL, pause half, ALL 23 functions (histories; any number of shards; any interleaving): while `tok` is paused on
+    shard `i`, no history of ESDTTransfer, ESDTNFTTransfer and MultiESDTNFTTransfer user transactions, deliveries,
+    refusals and refunds — of any tokens, any number of items, between any accounts — mixed with calls of the 20 other
+    functions by anybody on any shard changes any entry of `tok` on that shard (every account but the ESDT system
+    contract's own; the fungible entry and the entry of every nonce; byte for byte: value, flags, metadata) or lifts the
+    pause; excluded are exactly the steps the property names — the system contract's wipe / freeze / unfreeze / pause /
+    un-pause of that very token, a flagged refund of `tok`, calls flagged return-after-error — and token identifiers
+    that alias (`NoAliasTok`, `NoAliasArgs`). Proofs/UnifiedPaused.lean, UnifiedPausedNFT.lean, UnifiedPausedMulti.lean:
+    every write goes through a gate that reads the pause flag of the token key (`spec_addToESDTBalance`, `spec_saveNFT`,
+    `spec_addNFTToDestination`), the loops of the multi transfer by induction. -/
+theorem paused_entries_in_mixed_world (tok : Bytes) (f : Bytes → Nat → Bytes) (e : Env) (i : Nat) (steps : List UStep)
+    (w : UWorld) (hI : UInv e w) (hok : UStepsOK e steps w) (hpz : UPzStepsOK3 e tok steps w) (hF : PzW tok f i w) :
+    PzW tok f i (urun e steps w).1 :=
+  unified_pz_history3 e i steps w hI hok hpz hF
+
+/-! non-vacuity: the world of the frozen example with `fzTok` PAUSED on the shard: bob's mint of it is refused, his transfer
+    too, the system contract pauses another token: alice's entry is bit for bit what it was and `fzTok` is still paused -/
+def pzA : Accts := fzA.write systemAccountAddress (esdtKeyPrefix ++ fzTok) [1, 0]
+def pzW0 : UWorld := { shards := [pzA], ft := [], nft := [], multi := [] }
+def pzFinal : UWorld := (urun fzEnv fzSteps pzW0).1
+
+example : (pzFinal.shards[0]?.map fun A => (A.read fzAlice (esdtKeyPrefix ++ fzTok) == encToken fzEntry,
+    balOf (A.read fzBob (esdtKeyPrefix ++ fzTok)), pausedIn A (esdtKeyPrefix ++ fzTok), pausedIn A (esdtKeyPrefix ++ [88]))) =
+    some (true, 0, true, true) := by decide +kernel
+
+example : PzW fzTok (fun a n => pzA.read a (nftKey (esdtKeyPrefix ++ fzTok) n)) 0 pzW0 :=
+  ⟨pzA, rfl, (by show pausedIn pzA (esdtKeyPrefix ++ fzTok) = true; decide +kernel), fun _ _ _ => rfl⟩
+
+theorem noAlias_self (tok : Bytes) : NoAliasTok tok tok := fun h => absurd rfl h
+
+theorem noAlias_88 : NoAliasTok fzTok [88] := by
+  intro _ n n' h
+  have := congrArg (fun l => l[10]?) h
+  simp [nftKey, esdtKeyPrefix, ascii, fzTok] at this
+
+example : UPzStepsOK3 fzEnv fzTok fzSteps pzW0 := by
+  show UPzStepsOK fzEnv fzTok fzSteps pzW0
+  refine ⟨⟨rfl, ?_, fun h => (by rcases h with h | h | h | h | h <;> cases h)⟩, ⟨rfl, ?_⟩, ⟨rfl, ?_⟩,
+    ⟨rfl, ?_, fun _ t0 h0 => ?_⟩, trivial⟩
+  · intro t0 h0; simp [fzMint] at h0; subst h0; exact noAlias_self _
+  · intro t0 h0; simp [fzToAlice] at h0; subst h0; exact noAlias_self _
+  · intro t0 h0; simp [fzToCarol] at h0; subst h0; exact noAlias_self _
+  · intro t0 h0; simp [fzPause] at h0; subst h0; exact noAlias_88
+  · simp [fzPause] at h0; subst h0; decide
+
+-- PARTIAL (stated): the history-level clause of the FROZEN half for the NFT / multi transfer functions (the PAUSE half is FULL above) ("for all histories interleaving the
 -- toggles with every balance-changing function") is the composition of the per-call theorems above; the whole
 -- multi-transfer loops and the destination side of a multi transfer are covered item-wise (`paused_blocks_multi_item`,
 -- `spec_addNFTToDestination`, `spec_addToESDTBalance` carry the gate). The C04 oracle (no entry of a frozen account / paused
